@@ -1,5 +1,5 @@
 (* C02 - session lockstep: each call returns exactly the replies to its own commands. *)
-From LibFtp Require Import Bytes Decimal Reply Endpoint DataConn Client Client_Proofs Ascii DataConn_Proofs Login_Proofs Transfer_Proofs.
+From LibFtp Require Import Bytes Decimal Reply Endpoint Ascii DataConn DataConn_Proofs Client Client_Proofs Login_Proofs Transfer_Proofs Transfer_More.
 Local Open Scope N_scope.
 
 (* The unit of lockstep: from a state in which nothing is unread or pending, "send one command, receive its reply"
@@ -61,14 +61,14 @@ Print Assumptions C02_greeting_120_then_220.
    peer's remaining script untouched): no later call can receive a reply of this one *)
 Theorem C02_download_in_step : forall w path r1 r2 rest x1 x2 x3 ip port,
   insync w (r1 :: r2 :: rest) -> w_data w = None ->
-  c_mode (w_cfg w) = Passive -> c_tls (w_cfg w) = false -> c_type (w_cfg w) = TBinary ->
+  c_mode (w_cfg w) = Passive -> c_tls (w_cfg w) = false ->
   has_crlf path = false ->
   simple_reaction r1 x1 -> is_negative x1 = false -> passive_target (w_cfg w) x1 ip port ->
   dp_reachable (r_data r1) = true ->
   accepts_transfer r2 x2 x3 -> dp_end (r_data r2) = DEof ->
   exists w', step w (ADownload path None None) = (OReturn (RvReplies [x1; x2; x3]), w') /\
     insync w' rest /\ w_data w' = None /\ w_cfg w' = w_cfg w /\
-    sink_bytes (io_events (skipn (length (w_trace w)) (w_trace w'))) = concat (dp_segs (r_data r2)) /\
+    sink_bytes (io_events (skipn (length (w_trace w)) (w_trace w'))) = delivered (c_type (w_cfg w)) (concat (dp_segs (r_data r2))) /\
     wire_events (skipn (length (w_trace w)) (w_trace w')) =
       [WLine (setup_line (w_cfg w)); WReply x1; WLine (RETR_ ++ SP :: path); WReply x2; WReply x3] /\
     data_events (skipn (length (w_trace w)) (w_trace w')) =
@@ -78,14 +78,14 @@ Print Assumptions C02_download_in_step.
 
 Theorem C02_upload_in_step : forall w u path chunks r1 r2 rest x1 x2 x3 ip port,
   insync w (r1 :: r2 :: rest) -> w_data w = None ->
-  c_mode (w_cfg w) = Passive -> c_tls (w_cfg w) = false -> c_type (w_cfg w) = TBinary ->
+  c_mode (w_cfg w) = Passive -> c_tls (w_cfg w) = false ->
   has_crlf path = false ->
   simple_reaction r1 x1 -> is_negative x1 = false -> passive_target (w_cfg w) x1 ip port ->
   dp_reachable (r_data r1) = true ->
   accepts_transfer r2 x2 x3 ->
   exists w', step w (AUpload u path chunks None) = (OReturn (RvReplies [x1; x2; x3]), w') /\
     insync w' rest /\ w_data w' = None /\ w_cfg w' = w_cfg w /\
-    net_out_bytes (io_events (skipn (length (w_trace w)) (w_trace w'))) = concat (upto_empty chunks) /\
+    net_out_bytes (io_events (skipn (length (w_trace w)) (w_trace w'))) = sent (c_type (w_cfg w)) chunks /\
     wire_events (skipn (length (w_trace w)) (w_trace w')) =
       [WLine (setup_line (w_cfg w)); WReply x1; WLine (upverb_bytes u ++ SP :: path); WReply x2; WReply x3] /\
     data_events (skipn (length (w_trace w)) (w_trace w')) =
@@ -95,12 +95,12 @@ Print Assumptions C02_upload_in_step.
 
 Theorem C02_listing_in_step : forall w path names r1 r2 rest x1 x2 x3 ip port,
   insync w (r1 :: r2 :: rest) -> w_data w = None ->
-  c_mode (w_cfg w) = Passive -> c_tls (w_cfg w) = false -> c_type (w_cfg w) = TBinary ->
+  c_mode (w_cfg w) = Passive -> c_tls (w_cfg w) = false ->
   arg_ok path ->
   simple_reaction r1 x1 -> is_negative x1 = false -> passive_target (w_cfg w) x1 ip port ->
   dp_reachable (r_data r1) = true ->
   accepts_transfer r2 x2 x3 -> dp_end (r_data r2) = DEof ->
-  exists w', step w (AList path names) = (OReturn (RvList [x1; x2; x3] (concat (dp_segs (r_data r2)))), w') /\
+  exists w', step w (AList path names) = (OReturn (RvList [x1; x2; x3] (delivered (c_type (w_cfg w)) (concat (dp_segs (r_data r2))))), w') /\
     insync w' rest /\ w_data w' = None /\ w_cfg w' = w_cfg w /\
     wire_events (skipn (length (w_trace w)) (w_trace w')) =
       [WLine (setup_line (w_cfg w)); WReply x1; WLine (line_of (if names then NLST_ else LIST_) path); WReply x2; WReply x3] /\
@@ -109,7 +109,7 @@ Theorem C02_listing_in_step : forall w path names r1 r2 rest x1 x2 x3 ip port,
     obs_events (skipn (length (w_trace w)) (w_trace w')) =
       told (w_obs w) (ORequest (setup_line (w_cfg w))) ++ told (w_obs w) (OReply x1) ++
       told (w_obs w) (ORequest (line_of (if names then NLST_ else LIST_) path)) ++ told (w_obs w) (OReply x2) ++
-      told (w_obs w) (OFileList (concat (dp_segs (r_data r2)))) ++ told (w_obs w) (OReply x3).
+      told (w_obs w) (OFileList (delivered (c_type (w_cfg w)) (concat (dp_segs (r_data r2))))) ++ told (w_obs w) (OReply x3).
 Proof. exact list_passive_complete. Qed.
 Print Assumptions C02_listing_in_step.
 
@@ -135,3 +135,35 @@ Theorem C02_abor_lockstep_refuted :
      OReturn (RvReply (mkReply 226 [50]))].
 Proof. vm_compute. reflexivity. Qed.
 Print Assumptions C02_abor_lockstep_refuted.
+
+(* 120 followed by the final greeting: both are read and returned by connect, nothing stays unread *)
+Theorem C02_greeting_120_then_220_read : forall w h p s srest g1 g2,
+  w_open w = false -> w_script w = s :: srest -> s_reachable s = true -> c_tls (w_cfg w) = false ->
+  r_now (s_greeting s) = [RReply g1; RReply g2] -> r_close_after (s_greeting s) = false ->
+  code g1 = 120 -> code g2 <> 421 ->
+  exists w', step w (AConnect h p None) = (OReturn (RvReplies [g1; g2]), w') /\
+    insync w' (s_reactions s) /\ w_script w' = srest /\
+    wire_events (skipn (length (w_trace w)) (w_trace w')) = [WReply g1; WReply g2].
+Proof. exact connect_120_then_220. Qed.
+Print Assumptions C02_greeting_120_then_220_read.
+
+(* a cancelled download answered 426 + 226 to ABOR leaves the session in step *)
+Theorem C02_cancelled_download_in_step : forall w path answers answers' answers'' ev r1 r2 r3 rest x1 x2 x4 x5 ip port pr,
+  insync w (r1 :: r2 :: r3 :: rest) -> w_data w = None ->
+  c_mode (w_cfg w) = Passive -> c_tls (w_cfg w) = false ->
+  has_crlf path = false ->
+  simple_reaction r1 x1 -> is_negative x1 = false -> passive_target (w_cfg w) x1 ip port ->
+  dp_reachable (r_data r1) = true ->
+  simple_reaction r2 x2 -> is_negative x2 = false ->
+  data_recv (c_type (w_cfg w)) (mkSink None O) (dp_segs (r_data r2)) (dp_end (r_data r2)) (Some answers) = (ev, pr, Some answers') ->
+  pr <> PThrow -> poll answers' = (true, answers'') ->
+  r_now r3 = [RReply x4; RReply x5] -> r_on_close r3 = [] -> r_close_after r3 = false ->
+  code x4 = 426 -> code x5 <> 421 ->
+  exists w', step w (ADownload path (Some answers) None) = (OReturn (RvReplies [x1; x2; x4; x5]), w') /\
+    insync w' rest /\ w_data w' = None /\
+    wire_events (skipn (length (w_trace w)) (w_trace w')) =
+      [WLine (setup_line (w_cfg w)); WReply x1; WLine (RETR_ ++ SP :: path); WReply x2; WLine ABOR_; WReply x4; WReply x5] /\
+    data_events (skipn (length (w_trace w)) (w_trace w')) = [DNewObj; DConnectTo ip port true; DClose] /\
+    io_events (skipn (length (w_trace w)) (w_trace w')) = ev ++ [IoPoll true].
+Proof. exact download_cancelled_passive. Qed.
+Print Assumptions C02_cancelled_download_in_step.
